@@ -34,15 +34,6 @@ def real(lo=None, hi=None):
     return b
 
 
-def posreal():
-    def b(c, label):
-        t = c.sym(label, R)
-        c.path.pc.append(t > 0)
-        return SV(t)
-    b.recipe = ('real',)
-    return b
-
-
 def integer(lo=None, hi=None):
     def b(c, label):
         t = c.sym(label, I)
